@@ -25,6 +25,9 @@ META = {
     "assumptions": ["every encoding uses the same explicit cube shape (extent+1 per dimension) so that outputs are comparable",
                     "re-encoding is done with the library's own shift_common; if its dense result differs from the original the re-encoding itself is reported (C06 reports the same defect at the operation)"],
 }
+META["rule"] += '; round 7: re-encoding also through iindex.from_array(dense, common=v); cubes of 6-9 categories with 2-5% scattered uncommon rows coinciding across dimensions'
+for _t in META["require"]:
+    META["require"][_t] = list(META["require"][_t]) + ['enc:rebuilt_from_dense_data', 'class:many_categories_few_scattered_uncommon_rows']
 
 
 def shards(tier):
